@@ -6,10 +6,12 @@ import (
 	"fmt"
 	"os"
 	"sort"
+	"strings"
 	"testing"
 
 	"codeberg.org/TauCeti/mangle-go/analysis"
 	"codeberg.org/TauCeti/mangle-go/ast"
+	"codeberg.org/TauCeti/mangle-go/parse"
 	"pgregory.net/rapid"
 	"verif/stats"
 )
@@ -44,6 +46,59 @@ type Case struct {
 	N     int    `json:"n"`
 	Edb   []bool `json:"edb"`
 	Rules []Rule `json:"rules"`
+	// ViaText: the rule set is written as source text, parsed and analysed, and Stratify gets what analysis made
+	// of it (classification into extensional/intensional predicates, rewritten aggregating rules). FactsFor lists
+	// intensional predicates that also have a fact of their own; FactsLast writes all facts after the rules.
+	// Temporal mentions are written as plain ones in this mode (they would need temporal declarations).
+	ViaText   bool  `json:"viaText,omitempty"`
+	FactsFor  []int `json:"factsFor,omitempty"`
+	FactsLast bool  `json:"factsLast,omitempty"`
+}
+
+// text prints the rule set as a source unit (ViaText).
+func (c Case) text() string {
+	var facts, rules []string
+	facts = append(facts, "e1(1).", "e2(1).")
+	for i := 0; i < c.N; i++ {
+		if c.Edb[i] {
+			facts = append(facts, fmt.Sprintf("p%d(1).", i))
+		}
+	}
+	for _, i := range c.FactsFor {
+		if i >= 0 && i < c.N && !c.Edb[i] {
+			facts = append(facts, fmt.Sprintf("p%d(2).", i))
+		}
+	}
+	for _, r := range c.Rules {
+		var pos, rest []string
+		for _, m := range r.Body {
+			name := sym(m.Pred).Symbol
+			switch m.Kind {
+			case kPos, kTPos:
+				pos = append(pos, name+"(X)")
+			case kNeg, kTNeg:
+				rest = append(rest, "!"+name+"(X)")
+			case kBuiltin:
+				rest = append(rest, ":lt(X, 3)")
+			}
+		}
+		if len(pos) == 0 {
+			pos = []string{"e1(X)"} // binds X; extensional, no dependency
+		}
+		body := strings.Join(append(pos, rest...), ", ")
+		switch {
+		case r.Agg:
+			rules = append(rules, fmt.Sprintf("p%d(N) :- %s |> do fn:group_by(), let N = fn:count().", r.Head, body))
+		case r.Let:
+			rules = append(rules, fmt.Sprintf("p%d(N) :- %s |> let N = fn:plus(X, 1).", r.Head, body))
+		default:
+			rules = append(rules, fmt.Sprintf("p%d(X) :- %s.", r.Head, body))
+		}
+	}
+	if c.FactsLast {
+		return strings.Join(rules, "\n") + "\n" + strings.Join(facts, "\n") + "\n"
+	}
+	return strings.Join(facts, "\n") + "\n" + strings.Join(rules, "\n") + "\n"
 }
 
 func sym(i int) ast.PredicateSym {
@@ -181,7 +236,7 @@ func check(run *stats.Run, f stats.Failer, c Case) verdict {
 	}
 	for _, r := range c.Rules {
 		for _, m := range r.Body {
-			if (m.Kind == kTPos || m.Kind == kTNeg) && m.Pred >= 0 && !c.Edb[m.Pred] {
+			if (m.Kind == kTPos || m.Kind == kTNeg) && m.Pred >= 0 && !c.Edb[m.Pred] && !c.ViaText {
 				hasTemporal = true
 			}
 		}
@@ -218,22 +273,50 @@ func check(run *stats.Run, f stats.Failer, c Case) verdict {
 	var strata []analysis.Nodeset
 	var predToStratum map[ast.PredicateSym]int
 	var err error
+	textRejected := ""
 	func() {
 		defer func() {
 			if p := recover(); p != nil {
 				run.Failf(f, "Stratify panicked: %v", p)
 			}
 		}()
-		strata, predToStratum, err = analysis.Stratify(c.program())
+		if !c.ViaText {
+			strata, predToStratum, err = analysis.Stratify(c.program())
+			return
+		}
+		unit, perr := parse.Unit(strings.NewReader(c.text()))
+		if perr != nil {
+			run.Failf(f, "harness: the text of the rule set does not parse: %v\n%s", perr, c.text())
+		}
+		info, aerr := analysis.AnalyzeOneUnit(unit, nil)
+		if aerr != nil {
+			// analysis may report the failure itself; anything else it rejects is no verdict for C03
+			textRejected = aerr.Error()
+			return
+		}
+		strata, predToStratum, err = analysis.Stratify(analysis.Program{EdbPredicates: info.EdbPredicates, IdbPredicates: info.IdbPredicates, Rules: info.Rules})
 	}()
+	if c.ViaText {
+		v.labels = append(v.labels, "via-text")
+		if len(c.FactsFor) > 0 {
+			v.labels = append(v.labels, "via-text:idb-facts")
+		}
+		if textRejected != "" {
+			v.labels = append(v.labels, "via-text:rejected-by-analysis")
+			if !expectFail {
+				run.Failf(f, "analysis rejects a safe rule set without a dependency cycle through a negated/aggregated mention: %s\n%s", textRejected, c.text())
+			}
+			return v
+		}
+	}
 	if expectFail {
 		if err == nil {
-			run.Failf(f, "a dependency cycle passes through a negated/aggregated mention, but Stratify succeeded: strata=%v", strata)
+			run.Failf(f, "a dependency cycle passes through a negated/aggregated mention, but Stratify succeeded: strata=%v%s", strata, c.textNote())
 		}
 		return v
 	}
 	if err != nil {
-		run.Failf(f, "no dependency cycle passes through a negated/aggregated mention, but Stratify failed: %v", err)
+		run.Failf(f, "no dependency cycle passes through a negated/aggregated mention, but Stratify failed: %v%s", err, c.textNote())
 	}
 	// every intensional predicate lies in exactly one layer; the map agrees with the list.
 	layer := map[int]int{}
@@ -277,6 +360,13 @@ func check(run *stats.Run, f stats.Failer, c Case) verdict {
 		}
 	}
 	return v
+}
+
+func (c Case) textNote() string {
+	if !c.ViaText {
+		return ""
+	}
+	return "\nprogram text (parsed and analysed first):\n" + c.text()
 }
 
 func (c Case) hash() uint64 {
@@ -334,6 +424,15 @@ func genCase(t *rapid.T) Case {
 			}
 			c.Rules = append(c.Rules, r)
 		}
+	}
+	if rapid.IntRange(0, 3).Draw(t, "viaText") == 0 {
+		c.ViaText = true
+		for i := 0; i < n; i++ {
+			if !c.Edb[i] && rapid.IntRange(0, 2).Draw(t, "idbFact") == 0 {
+				c.FactsFor = append(c.FactsFor, i)
+			}
+		}
+		c.FactsLast = rapid.Bool().Draw(t, "factsLast")
 	}
 	return c
 }
